@@ -224,6 +224,7 @@ func (c *canonicaliser) thread(th *Thread) {
 	c.i32(int32(th.NoPreempt))
 	c.i32(int32(th.NNondet))
 	c.i32(int32(th.Sleeps))
+	c.i32(int32(th.IdleSleeps))
 	c.term(th.Slept)
 	if th.Panic != nil {
 		c.u8(1)
